@@ -122,6 +122,9 @@ type (
 		// MemoryInstance (see MemoryInstance.releaseUser).
 		memoryReleased bool
 
+		// importedGlobalOwners are the instances this one imports globals from. Never read: see resolveImports.
+		importedGlobalOwners []*ModuleInstance
+
 		// s is the Store on which this module is instantiated.
 		s *Store
 		// prev and next hold the nodes in the linked list of ModuleInstance held by Store.
@@ -577,6 +580,9 @@ func (m *ModuleInstance) resolveImports(ctx context.Context, module *Module) (er
 					return
 				}
 				m.Globals[i.IndexPerType] = importedGlobal
+				// A funcref value is a raw pointer into the engine of the instance the function belongs to,
+				// which the garbage collector cannot see: the importer keeps the exporter reachable.
+				m.importedGlobalOwners = append(m.importedGlobalOwners, importedModule)
 			}
 		}
 	}
